@@ -11,6 +11,9 @@ typedef struct {
   char             *qname;   /* single question name (owned), NULL = no question */
   int               qtype, qclass;
   size_t            ancount; /* abstract answer count */
+  int               has_opt; /* an OPT RR in the additional section (abstract) */
+  size_t            opt_options; /* number of EDNS options in it */
+  struct { int dummy; } optrr; /* address stands for the OPT RR */
 } vp_absrec_t;
 
 void vp_absrec_set_question(ares_dns_record_t *r, const char *name, int qtype, int qclass)
@@ -22,6 +25,7 @@ void vp_absrec_set_question(ares_dns_record_t *r, const char *name, int qtype, i
   while (name[n] != 0)
     n++;
   a->qname = vp_malloc(n + 1);
+  if (a->qname == NULL) return; /* allocation failure: record left without a question (callers check) */
   for (i = 0; i <= n; i++)
     a->qname[i] = name[i];
   a->qtype  = qtype;
@@ -39,6 +43,8 @@ ares_dns_record_t *vp_absrec_new(unsigned short id)
   a->qtype   = 1;
   a->qclass  = 1;
   a->ancount = 0;
+  a->has_opt = 0;
+  a->opt_options = 0;
   r          = &a->rec;
   r->id            = id;
   r->flags         = 0;
@@ -96,7 +102,51 @@ ares_status_t ares_dns_record_query_set_name(ares_dns_record_t *r, size_t idx, c
 size_t ares_dns_record_rr_cnt(const ares_dns_record_t *r, ares_dns_section_t sect)
 {
   if (r == NULL) return 0;
+  if (sect == ARES_SECTION_ADDITIONAL) return ((const vp_absrec_t *)r)->has_opt ? 1 : 0;
   return sect == ARES_SECTION_ANSWER ? ((const vp_absrec_t *)r)->ancount : 0;
+}
+void vp_absrec_set_opt(ares_dns_record_t *r, int has_opt, size_t options)
+{
+  ((vp_absrec_t *)r)->has_opt     = has_opt;
+  ((vp_absrec_t *)r)->opt_options = options;
+}
+int vp_absrec_has_opt(const ares_dns_record_t *r) { return ((const vp_absrec_t *)r)->has_opt; }
+/* the abstract OPT RR is identified by the address of a member of its record */
+static const vp_absrec_t *rr_owner(const ares_dns_rr_t *rr)
+{
+  return (const vp_absrec_t *)(const void *)((const char *)rr - offsetof(vp_absrec_t, optrr));
+}
+const ares_dns_rr_t *ares_dns_get_opt_rr_const(const ares_dns_record_t *r)
+{
+  const vp_absrec_t *a = (const vp_absrec_t *)r;
+  if (r == NULL || !a->has_opt) return NULL;
+  return (const ares_dns_rr_t *)(const void *)&a->optrr;
+}
+ares_dns_rr_t *ares_dns_get_opt_rr(ares_dns_record_t *r)
+{
+  return (ares_dns_rr_t *)(void *)ares_dns_get_opt_rr_const(r);
+}
+const ares_dns_rr_t *ares_dns_record_rr_get_const(const ares_dns_record_t *r, ares_dns_section_t sect, size_t idx)
+{
+  if (sect != ARES_SECTION_ADDITIONAL || idx != 0) return NULL;
+  return ares_dns_get_opt_rr_const(r);
+}
+ares_dns_rr_t *ares_dns_record_rr_get(ares_dns_record_t *r, ares_dns_section_t sect, size_t idx)
+{
+  return (ares_dns_rr_t *)(void *)ares_dns_record_rr_get_const(r, sect, idx);
+}
+ares_dns_rec_type_t ares_dns_rr_get_type(const ares_dns_rr_t *rr) { return rr ? ARES_REC_TYPE_OPT : 0; }
+size_t ares_dns_rr_get_opt_cnt(const ares_dns_rr_t *rr, ares_dns_rr_key_t key)
+{
+  (void)key;
+  return rr ? rr_owner(rr)->opt_options : 0;
+}
+ares_status_t ares_dns_record_rr_del(ares_dns_record_t *r, ares_dns_section_t sect, size_t idx)
+{
+  vp_absrec_t *a = (vp_absrec_t *)r;
+  if (r == NULL || sect != ARES_SECTION_ADDITIONAL || idx != 0 || !a->has_opt) return ARES_EFORMERR;
+  a->has_opt = 0;
+  return ARES_SUCCESS;
 }
 int vp_absrec_dup_may_fail = 0;
 ares_dns_record_t *ares_dns_record_duplicate(const ares_dns_record_t *r)
@@ -106,8 +156,10 @@ ares_dns_record_t *ares_dns_record_duplicate(const ares_dns_record_t *r)
   if (r == NULL) return NULL;
   if (vp_absrec_dup_may_fail && vp_bool()) return NULL;
   d = vp_absrec_new(r->id);
+  if (d == NULL) return NULL;
   d->flags = r->flags; d->opcode = r->opcode; d->rcode = r->rcode;
   if (a->qname) vp_absrec_set_question(d, a->qname, a->qtype, a->qclass);
   vp_absrec_set_ancount(d, a->ancount);
+  vp_absrec_set_opt(d, a->has_opt, a->opt_options);
   return d;
 }
